@@ -32,9 +32,10 @@ const (
 	Close            // close the connection without replying
 	Custom           // Action.Reply as the frame body
 	Stall            // never reply (until the connection is closed)
+	WrongType        // a well-formed agent message of a type that does not answer the request
 )
 
-var KindName = map[int]string{Honest: "honest", Failure: "failure", Garbage: "garbage", Oversized: "oversized", Truncated: "truncated", Close: "close", Custom: "custom", Stall: "stall"}
+var KindName = map[int]string{Honest: "honest", Failure: "failure", Garbage: "garbage", Oversized: "oversized", Truncated: "truncated", Close: "close", Custom: "custom", Stall: "stall", WrongType: "wrong-type"}
 
 // Action says how to answer one request.
 type Action struct {
@@ -224,6 +225,13 @@ func (a *Agent) ServeConn(c net.Conn) {
 			ev.Reply = []byte{0xde, 0xad, 0xbe, 0xef, 0x01, 0x02, 0xff, 0xff, 0xff, 0xff}
 		case Custom:
 			ev.Reply = act.Reply
+		case WrongType:
+			// SSH_AGENT_SUCCESS to requests that expect data, an empty identities answer to the others
+			if ev.Code == 11 || ev.Code == 13 || ev.Code == 1 {
+				ev.Reply = []byte{6}
+			} else {
+				ev.Reply = []byte{12, 0, 0, 0, 0}
+			}
 		case Oversized:
 			// a declared length of 16 MiB + 1; the stream is out of sync afterwards, so the connection ends
 			frame, out, stop = false, []byte{0x01, 0x00, 0x00, 0x01, 12, 0, 0, 0, 0}, true
